@@ -157,6 +157,10 @@ class RewriterScenario:
             for m in c.methods.values():
                 if m.qualname.split(".")[-1] not in ("rewrite", "generic_rewrite"):
                     inline.add(m.fq)
+        # private module-level helpers of typing.py (a piece extracted from a rewriter method) are interpreted with it
+        for f in repo.module(TY).functions.values():
+            if f.cls is None and f.qualname.startswith("_"):
+                inline.add(f.fq)
         self.ri = RepoInterp(repo, fi, inline=inline, call_hook=self.call_hook, may_fork=(), heap=True, max_depth=16)
         self.ri.self_class = self.ci
         self.ri.on_attr = self.on_attr  # type: ignore[method-assign]
@@ -324,7 +328,7 @@ class RewriterScenario:
         if d == "tuple" and len(args) == 1:
             seq = self.ri.interp.iterate(args[0], st)
             return K(tuple(seq)) if seq is not None else None
-        callee = self.ri.resolve(call)
+        callee = self.ri.resolve(call, fval)
         if callee is not None and callee.module.name in (TY, "monkeytype.compat"):
             name = callee.qualname
             a0 = args[0] if args else None
